@@ -168,6 +168,54 @@ def sea_cases(out: Outcome, rng, n_cases: int, lines, expect) -> None:
             pass
 
 
+class FakeRaw:
+    """urllib3's response object as far as a download needs it: `read` / `stream` deliver the WIRE bytes (compressed, when the server compressed them) unless the caller
+    asks for decoding - `raw.decode_content = True` or `read(decode_content=True)`, the documented idiom - in which case they deliver the file"""
+
+    def __init__(self, wire: bytes, content: bytes, encoded: bool):
+        self._wire, self._content, self._encoded = wire, content, encoded
+        self.decode_content = False
+        self._pos = 0
+        self._mode = None
+        self.headers = {}
+
+    def _data(self, decode_content):
+        d = self.decode_content if decode_content is None else decode_content
+        mode = bool(d) and self._encoded
+        if self._mode is None:
+            self._mode = mode
+        return self._content if self._mode else self._wire
+
+    def read(self, amt=None, decode_content=None, cache_content=False):
+        data = self._data(decode_content)
+        if amt is None or amt < 0:
+            out, self._pos = data[self._pos:], len(data)
+        else:
+            out, self._pos = data[self._pos: self._pos + amt], min(len(data), self._pos + amt)
+        return out
+
+    def stream(self, amt=2 ** 16, decode_content=None):
+        while True:
+            chunk = self.read(amt, decode_content=decode_content)
+            if not chunk:
+                return
+            yield chunk
+
+    def readinto(self, b):
+        chunk = self.read(len(b))
+        b[: len(chunk)] = chunk
+        return len(chunk)
+
+    def close(self):
+        pass
+
+    def release_conn(self):
+        pass
+
+    def __iter__(self):
+        return self.stream()
+
+
 class FakeResponse:
     """a scripted `requests.Response`: everything a reasonable implementation may use to read the body or the status (content, iter_content, text, raw,
     status_code, reason, headers, url, close, context manager), so that a harmless rewrite of the download code is not mistaken for a defect"""
@@ -222,10 +270,11 @@ class FakeResponse:
 
     @property
     def raw(self):
-        import io
         if self._content_error is not None:
             raise self._content_error
-        return io.BytesIO(self._wire)
+        if getattr(self, "_raw", None) is None:
+            self._raw = FakeRaw(self._wire, self._content, self.transfer == "gzip")
+        return self._raw
 
     def close(self):
         pass
@@ -267,6 +316,7 @@ def body(url: str) -> bytes:
 
 
 _REAL_REQUEST = requests.Session.request
+_REAL_SEND = requests.Session.send
 
 
 def install_network(head, get) -> None:
@@ -276,11 +326,19 @@ def install_network(head, get) -> None:
         for k in ("params", "data", "headers", "cookies", "files", "auth", "allow_redirects", "proxies", "hooks", "verify", "cert", "json"):
             kw.pop(k, None)
         return (head if str(method).upper() == "HEAD" else get)(url, **kw)
+
+    def send(self, request, **kw):
+        # prepared requests (`session.send(session.prepare_request(Request(...)))`, adapters, requests-toolbelt) do not pass through `Session.request`
+        for k in ("proxies", "verify", "cert", "allow_redirects"):
+            kw.pop(k, None)
+        return (head if str(request.method).upper() == "HEAD" else get)(request.url, **kw)
     requests.Session.request = request
+    requests.Session.send = send
 
 
 def uninstall_network() -> None:
     requests.Session.request = _REAL_REQUEST
+    requests.Session.send = _REAL_SEND
 
 
 def no_timeout(timeout) -> bool:
